@@ -316,8 +316,16 @@ def gen_units():
     ], self_ty="ActionExprPos"))
     u.append(fns(F_JO, [
         # C04: the three index functions
-        fn("active_step_branch_count", "r", mode="assumed",
-           ensures=["r == count_active(self.depths@, step_number as int)"]),
+        fn("active_step_branch_count", "r", attrs="#[verifier::loop_isolation(false)]\n",
+           ensures=["r == count_active(self.depths@, step_number as int)"],
+           closures={"0": {"params": ["&&usize"], "ret": "(r: bool)", "ensures": ["r == (**__c0p0 > step_number)"]}},
+           iter_loops={"0": {"invariant": [
+               "__i <= __it.len()", "__it@ == self.depths@", "__n <= __i",
+               "__n as int == count_active(self.depths@.take(__i as int), step_number as int)",
+               "forall|a: &&usize| __p.requires((a,))",
+               "forall|a: &&usize, r: bool| __p.ensures((a,), r) ==> r == (**a > step_number)"],
+               "body_prologue": "proof { assert(self.depths@.take(__i as int + 1).drop_last() =~= self.depths@.take(__i as int)); }",
+               "after": "proof { assert(self.depths@.take(__i as int) =~= self.depths@); }"}}),
         fn("is_branch_active_in_step", "r", requires=["branch_index < self.depths@.len()"],
            ensures=["r == (self.depths@[branch_index as int] > step_number)"]),
         fn("generate_indexed_step_results_name", "r", requires=["step_results_name.tokenizable()"],
@@ -338,10 +346,23 @@ def gen_units():
            closures={"0": {"params": [], "ret": "(r: TokenStream)", "ensures": ["r@ =~= seq![Tok::Ident(construct_result_name_spec(branch_index))]"]}},
            subst=[{"find": ".map(ToTokens::into_token_stream)", "replace": ".map(|p: &PatIdent| -> (r: TokenStream) ensures r@ == p.toks() { p.into_token_stream() })",
                    "why": "path to a trait method used as a function value: written as the equivalent closure (Verus has no spec for the method item)"}]),
-        # out of Verus' reach (closure capturing `&mut index`): contract assumed, exercised by K-C04/K-C13
-        fn("extract_results_tuple", "r", mode="assumed",
-           requires=["results_var.tokenizable()", "all_tokenizable(result_vars@)"],
-           ensures=["step_number is None ==> r@ == extract_all(results_var.toks(), seq_toks_sep(result_vars@, ','), handler)"]),
+        # C04/C13: the destructuring of a results tuple; with a step only the branches active in it are named, in branch
+        # order (R13: the lazy `filter` adaptor with a counting closure is desugared into the loop it stands for)
+        fn("extract_results_tuple", "r", attrs="#[verifier::loop_isolation(false)]\n",
+           requires=["results_var.tokenizable()", "all_tokenizable(result_vars@)",
+                     "step_number is Some ==> result_vars@.len() <= self.depths@.len()"],
+           ensures=["step_number is None ==> r@ == extract_all(results_var.toks(), seq_toks_sep(result_vars@, ','), handler)",
+                    "step_number is Some ==> r@ == extract_step(results_var.toks(), seq_toks_sep(filter_active(result_vars@, self.depths@, step_number->0 as int, result_vars@.len() as int), ','), seq_toks_sep(result_vars@, ','), handler)"],
+           closures={
+               "0": {"params": [], "ret": "(r: TokenStream)", "ensures": ["r@ =~= let_tuple(seq_toks_sep(result_vars@, ','), results_var.toks())"]},
+               "1": {"params": ["usize"], "ret": "(r: TokenStream)", "requires": ["result_vars@.len() <= self.depths@.len()"],
+                     "ensures": ["r@ =~= let_tuple(seq_toks_sep(filter_active(result_vars@, self.depths@, step_number as int, result_vars@.len() as int), ','), results_var.toks())"]},
+           },
+           iter_loops={"0": {"invariant": [
+               "__i <= __it.len()", "__it@ == result_vars@", "index == __i",
+               "refs_of(__v@, filter_active(result_vars@, self.depths@, step_number as int, __i as int))"],
+               "after": "proof { lemma_refs_toks(__v@, filter_active(result_vars@, self.depths@, step_number as int, result_vars@.len() as int), ','); "
+                        "lemma_filter_tokenizable(result_vars@, self.depths@, step_number as int, result_vars@.len() as int); }"}}),
         # C13: the handler call
         fn("generate_handle", "r",
            ensures=["r@ == doc_handle(self.config.is_async, handler_kind(self.handler), results_var.toks(), handler_name.toks(), result_names_toks(self.branch_count as nat))"],
@@ -634,10 +655,11 @@ OBLIGATIONS = {
             ("core", "ProcessExpr::replace_inner_exprs"), ("core", "ErrExpr::replace_inner_exprs"),
             ("core", "InitialExpr::replace_inner_exprs"), ("core", "ActionExpr::replace_inner_exprs"),
             ("core", "ExprGroup::replace_inner_exprs")],
-    "C04": [("gen", "JoinOutput::is_branch_active_in_step"), ("gen", "JoinOutput::generate_indexed_step_results_name"),
+    "C04": [("gen", "JoinOutput::active_step_branch_count"), ("gen", "JoinOutput::extract_results_tuple"), ("gen", "lemma_refs_toks"), ("gen", "lemma_filter_tokenizable"),
+            ("gen", "JoinOutput::is_branch_active_in_step"), ("gen", "JoinOutput::generate_indexed_step_results_name"),
             ("gen", "JoinOutput::branch_result_name"), ("gen", "JoinOutput::branch_result_pat")],
     "C07": [("entries", "lemma_entry_table")],
-    "C13": [("guards", "new_guards"), ("gen", "JoinOutput::generate_handle")],
+    "C13": [("guards", "new_guards"), ("gen", "JoinOutput::generate_handle"), ("gen", "JoinOutput::extract_results_tuple")],
     "C12": [("builder", "ActionExprChainBuilder::build_from_parse_stream"), ("gen", "JoinOutput::branch_result_name"), ("gen", "JoinOutput::branch_result_pat")],
     "C15": [("parse", "parse_until_suffix"), ("builder", "ActionExprChainBuilder::build_from_parse_stream"), ("builder", "ActionExprChain::append_member"),
             ("builder", "lemma_append_facts"), ("builder", "lemma_balanced_depth"),
